@@ -4,15 +4,20 @@
 
 mod digest;
 mod engine;
+mod fence;
 mod gen;
 mod props;
 mod refjson;
 mod subj;
+mod types;
 mod walk;
 
 use std::path::PathBuf;
 
 use engine::*;
+
+#[global_allocator]
+static GLOBAL: fence::FenceAlloc = fence::FenceAlloc;
 use serde_json::{json, Value as J};
 
 fn usage() -> ! {
